@@ -581,7 +581,7 @@ fn top_of_address_space(ctx: &Ctx) {
 
 pub fn run(tier: Tier, replay: Option<String>) -> i32 {
     let ctx = crate::new_ctx("C10", tier, "model_checking", &replay);
-    ctx.set_rule("E1 to an empty frontier: state = sorted list of (start, length) of a GuestMemoryMmap over U one-byte cells; from every reachable map: insert_region for every interval of the universe (valid, adjacent, overlapping by one byte, duplicate start), remove_region for every (base, size) incl. wrong size and non-start address, clone, and insert_region of every region handle that already exists in the map or in any of its ancestors (held by the map: refused; removed earlier or added on another branch: decided by the ranges alone); from_regions / from_arc_regions for every ordered list of up to 3 intervals (unsorted, overlapping, empty) and for every list of 2..3 handles in which one handle is repeated; from_ranges and from_ranges_with_files (one shared file with disjoint, identical and overlapping windows) for the same lists: what backs a region has no say in the answer. Regions are real mmaps filled with a unique tag; the frontier keeps every map together with all its ancestors alive, and after every transition the whole lineage is re-read (same regions, same host pointers, same tags). GuestRegionMmap::new over raw regions with base+size within +-3 of 2^64; for mappable sizes GuestRegionMmap::new, from_range (anonymous and file-backed), GuestMemoryMmap::from_ranges and from_ranges_with_files must agree on acceptance.");
+    ctx.set_rule("E1 to an empty frontier: state = sorted list of (start, length) of a GuestMemoryMmap over U one-byte cells (roots: every single-region map and the map without regions made by new(); a map emptied by removals is a state like any other); from every reachable map: insert_region for every interval of the universe (valid, adjacent, overlapping by one byte, duplicate start), remove_region for every (base, size) incl. wrong size and non-start address, clone, and insert_region of every region handle that already exists in the map or in any of its ancestors (held by the map: refused; removed earlier or added on another branch: decided by the ranges alone); from_regions / from_arc_regions for every ordered list of up to 3 intervals (unsorted, overlapping, empty) and for every list of 2..3 handles in which one handle is repeated; from_ranges and from_ranges_with_files (one shared file with disjoint, identical and overlapping windows) for the same lists: what backs a region has no say in the answer. Regions are real mmaps filled with a unique tag; the frontier keeps every map together with all its ancestors alive, and after every transition the whole lineage is re-read (same regions, same host pointers, same tags). GuestRegionMmap::new over raw regions with base+size within +-3 of 2^64; for mappable sizes GuestRegionMmap::new, from_range (anonymous and file-backed), GuestMemoryMmap::from_ranges and from_ranges_with_files must agree on acceptance.");
     ctx.assume("whether base + size == 2^64 'exceeds the address space' is not judged, only that all constructors agree; where a list is both unsorted and overlapping either documented error is accepted");
     if ctx.replay_of.is_some() {
         println!("replay: deterministic search; re-running it");
